@@ -22,6 +22,9 @@ func moduleOrder(rep *mbt.Report, tier string, rng *rand.Rand) {
 		permAll = 6
 	}
 	vs := trcheck.Generate(rep, "perms", permAll)
+	// the same definitions laid out differently (several per line, indented, CR LF, comments): textual
+	// order is the order of positions, whatever the columns
+	vs = append(vs, trcheck.Generate(rep, "layouts", permAll)...)
 	cs := trcheck.Run(vs)
 	n, discarded := 0, 0
 	// the permutations of one source are the same multiset of entities: whether the parser accepts must
@@ -33,7 +36,7 @@ func moduleOrder(rep *mbt.Report, tier string, rng *rand.Rand) {
 			es = append(es, string(b))
 		}
 		sort.Strings(es)
-		return strings.Join(es, "\n")
+		return c.Lay.ID + "\n" + strings.Join(es, "\n")
 	}
 	accepted, rejected := map[string]*trcheck.Case{}, map[string]*trcheck.Case{}
 	for _, c := range cs {
